@@ -7,6 +7,7 @@
  *   MODE       NMT mode 2/3/4
  *   SEQ        string over 'R' (RPDO frame on CH), 'S' (SYNC), 'L' (local write
  *              to the mapped objects), 'F' (frame with a neighbouring identifier),
+ *              'r' frame for the OTHER channel (-DOTHER: it maps 2105h),
  *              'P' NMT enter pre-operational, 'Z' NMT stop, 'N' NMT start: a reception
  *              still waiting for its SYNC when OPERATIONAL is left is discarded (PDO
  *              communication starts afresh with every OPERATIONAL phase)               */
@@ -68,6 +69,8 @@ void harness(void)
     uint32_t s, k, total = 0;
     uint8_t  d[8], pend[8];
     uint8_t  have_pend = 0;
+    uint8_t  opend[8], have_opend = 0;
+    uint8_t  osync = ((CH == 0) ? TYPE1 : TYPE0) <= 240;
     uint8_t  dlc;
     uint8_t  sync_ch = ((CH == 0) ? TYPE0 : TYPE1) <= 240;
     uint8_t  mode = MODE;
@@ -81,6 +84,10 @@ void harness(void)
     V1600_0(0) = 0; V1600_0(1) = 0;
     V1600_0(CH) = MAPN;
     for (k = 0; k < MAPN; k++) { V1600(CH, k) = map[k]; }
+#ifdef OTHER
+    /* the other channel maps 2105h (32 bit): op 'r' sends it a frame */
+    V1600_0(1 - CH) = 1; V1600(1 - CH, 0) = 0x21050020u;
+#endif
     app.b = ND_U8(); app.w = ND_U16(); app.l = ND_U32(); app.ab = ND_U8(); app.aw = ND_U16(); app.al = ND_U32();
     node_boot();
 #if MODE == 3
@@ -103,16 +110,25 @@ void harness(void)
                 if (sync_ch) { for (k = 0; k < 8; k++) { pend[k] = d[k]; } have_pend = 1; }
                 else         { model_apply(d); }
             }
+        } else if (o == 'r') {
+            /* frame for the other channel (4 bytes into 2105h) */
+            ND_BUF(d, 8);
+            env_deliver(&node, (CH == 0) ? 0x300 + OD_NODEID : 0x200 + OD_NODEID, 8, d);
+            if (mode == 3) {
+                if (osync) { for (k = 0; k < 8; k++) { opend[k] = d[k]; } have_opend = 1; }
+                else       { mal = (uint32_t)d[0] | ((uint32_t)d[1] << 8) | ((uint32_t)d[2] << 16) | ((uint32_t)d[3] << 24); }
+            }
         } else if (o == 'S') {
             for (k = 0; k < 8; k++) { d[k] = 0; }
             env_deliver(&node, 0x80, 0, d);
             if ((mode == 3) && have_pend) { model_apply(pend); have_pend = 0; }
+            if ((mode == 3) && have_opend) { mal = (uint32_t)opend[0] | ((uint32_t)opend[1] << 8) | ((uint32_t)opend[2] << 16) | ((uint32_t)opend[3] << 24); have_opend = 0; }
         } else if ((o == 'P') || (o == 'Z') || (o == 'N')) {
             for (k = 0; k < 8; k++) { d[k] = 0; }
             d[0] = (o == 'P') ? 128 : (o == 'Z') ? 2 : 1; d[1] = OD_NODEID;
             env_deliver(&node, 0x000, 2, d);
             mode = (o == 'P') ? 2 : (o == 'Z') ? 4 : 3;
-            if (mode != 3) { have_pend = 0; }
+            if (mode != 3) { have_pend = 0; have_opend = 0; }
         } else if (o == 'L') {
             app.b = ND_U8(); app.w = ND_U16(); app.l = ND_U32();
             mb = app.b; mw = app.w; ml = app.l;
